@@ -144,6 +144,34 @@ func (c *srvBinComp) Gen(r *rand.Rand, idx int, emit func(string)) {
 	// malformed parameter lists only (a well-formed call would be executed by the pool)
 	bad := []string{"absent", "null", "nonarray", "[]", "s", "s.s", "s.s.s", "i.s.i.o", "s.s.f.o", "s.s.i.a", "s.s.i.ob", "s.s.i.o.s", "s.s.i.s", "n.n.n.n.n", "s.i"}
 	cands := candidateRpcNames()
+	if idx%2 == 0 {
+		// every method of the pool object that is not on the allow-list, called the way it would run if it were
+		// exposed (right arity, fitting JSON types): on either transport the answer is method-not-found
+		allowed := map[string]bool{"Connect": true, "Disconnect": true, "Ping": true, "Update": true, "Peer": true, "Client": true, "Host": true}
+		kindOf := map[string]string{"str": "s", "int": "i", "bool": "b", "obj": "o", "slice": "a", "anymap": "o", "any": "n"}
+		for _, m := range methodTable(pool.New(memory.New(), nil)) {
+			f := strings.SplitN(m, ":", 2)
+			if allowed[f[0]] {
+				continue
+			}
+			ps := []string{}
+			for _, ty := range strings.Split(f[1], ".") {
+				if ty == "" {
+					continue
+				}
+				k := kindOf[ty]
+				if k == "" {
+					k = "n" // pointers take null
+				}
+				ps = append(ps, k)
+			}
+			p := strings.Join(ps, ".")
+			if p == "" {
+				p = "[]"
+			}
+			emit(fmt.Sprintf("call vipnode_%s%s %s", strings.ToLower(f[0][:1]), f[0][1:], p))
+		}
+	}
 	for i := 0; i < 25; i++ {
 		switch r.Intn(5) {
 		case 0, 1:
